@@ -450,7 +450,9 @@ class Consumer(object):
             self._commit_req.cancel()
         # Are we waiting to retry a commit?
         if self._commit_call:
-            self._commit_call.cancel()
+            if self._commit_call.active():
+                self._commit_call.cancel()
+            self._commit_call = None
         # Do we have an auto-commit looping call?
         if self._commit_looper is not None:
             self._commit_looper.stop()
